@@ -74,6 +74,12 @@ class C05(Check):
             for vals in itertools.product((-1.5, 0.0, 2.0), repeat=k):
                 for cs in itertools.product((1, 2), repeat=k):
                     yield ("abs", vals, cs)
+        # models in which one variable of the usual name is a general integer (0..2), not a binary
+        for n in (2, 3):
+            for which in range(n):
+                for cv in coeff_vectors(n):
+                    for t in (1, 2, 3):
+                        yield ("intmix", n, which, cv, t)
         menu = ilp_ref.NAME_MENU
         for a in menu:
             yield ("names", (a,))
@@ -129,7 +135,49 @@ class C05(Check):
             return self._eval_prod(st)
         if kind == "abs":
             return self._eval_abs(st)
+        if kind == "intmix":
+            return self._eval_intmix(st)
         return self._eval_names(st)
+
+    def _eval_intmix(self, st):
+        """X_which is an integer in 0..2; a solution names the binaries set to 1 only, and the exclusion cut ranges
+        over binaries only."""
+        from aldy import lpinterface
+
+        _, n, which, cv, t = st
+        m = lpinterface.model("verif", "any")
+        X = [m.addVar(vtype="I", lb=0, ub=2, name=f"X_{j}") if j == which else m.addVar(vtype="B", name=f"X_{j}") for j in range(n)]
+        e = m.addVar(lb=-m.INF, ub=m.INF, name="E_0")
+        expr = m.quicksum(X[j] for j in range(n) if cv[j])
+        m.addConstr(expr + e <= t, name="C_0")
+        m.addConstr(expr + e >= t, name="C_0")
+        m.setObjective(m.abssum([e]) + m.quicksum(0.1 * X[j] for j in range(n)))
+        names = [m.varName(x) for x in X]
+        ys = [(o, tuple(s)) for _, o, s in m.solutions(0.5)]
+        v = []
+        # closed form over all assignments (integer variable in 0..2)
+        table = {}
+        for x in itertools.product(*[(0, 1, 2) if j == which else (0, 1) for j in range(n)]):
+            table[x] = abs(t - sum(a * b for a, b in zip(cv, x))) + 0.1 * sum(x)
+        best = min(table.values())
+        if not ys or abs(ys[0][0] - best) > TOL:
+            v.append(("intmix/first-not-optimal", f"{st}: yields {ys[:2]}, optimum {best}"))
+        seen = set()
+        for o, s in ys:
+            if names[which] in s:
+                v.append(("intmix/integer-listed-as-binary", f"{st}: {s}"))
+            act = tuple(sorted(s))
+            if act in seen:
+                v.append(("intmix/duplicate", f"{st}: {s}"))
+            seen.add(act)
+            # the yielded binary pattern must admit an integer value with exactly this objective
+            ok = any(abs(val - o) <= TOL for x, val in table.items()
+                     if all((x[j] == (1 if names[j] in s else 0)) for j in range(n) if j != which))
+            if not ok:
+                v.append(("intmix/wrong-objective", f"{st}: {s} with {o}"))
+            if o > 1.5 * best + TOL + 1e-5:
+                v.append(("intmix/outside-gap", f"{st}: {o} > 1.5*{best}"))
+        return Outcome(v, key=("intmix", len(ys), round(best, 2)), nontrivial=True, note={"model": st, "yields": ys[:3]})
 
     def _build(self, st):
         from aldy import lpinterface
